@@ -5,6 +5,6 @@ for v in "$@"; do
   cd "$wt" && git checkout -q -- . && rm -f $tdir/seeded_demo*_test.go
   cp SEED/patch_$v.diff SEED/patch.diff
   cp SEED/demo_${v}_test.go $tdir/seeded_demo_${v}_test.go
-  /verif/tools/confirm_seed.sh "$wt" ${prop}-s1$v $prop $tdir "${SEED_TEST_ARGS:--run TestSeeded}" 2>&1 | tail -2
+  /verif/tools/confirm_seed.sh "$wt" ${prop}-s${SEED_ROUND:-1}$v $prop $tdir "${SEED_TEST_ARGS:--run TestSeeded}" 2>&1 | tail -2
 done
 cd "$wt" && git checkout -q -- . && rm -f $tdir/seeded_demo*_test.go
